@@ -190,6 +190,7 @@ func checkC08(c *CheckCtx) error {
 	for _, s := range scs {
 		c.nontrivial(s.Note)
 	}
+	c.NontrivialStat = "cleans_with_protected"
 	c.sample(map[string]any{"source": "generated skip/-run scenario", "note": scs[0].Note})
 	c.sample(map[string]any{"source": "generated skip/-run scenario", "note": scs[len(scs)-1].Note})
 	return c.runSeq(scs)
